@@ -8,7 +8,14 @@
 (* shortcut (one breakpoint per integer => exactly the consecutive integers of *)
 (* the domain, each with the function's own value); the number of breakpoints  *)
 (* is within the declared bound; the call returns a result or a diagnosed       *)
-(* refusal.  NOT decided: the real-valued error bound between breakpoints.     *)
+(* refusal.  The error bound itself is decided on MEASUREMENTS: the harness     *)
+(* evaluates the result and the function (same libm call) at the breakpoints,  *)
+(* at seven interior points of every segment (every/nine integers for integer  *)
+(* arguments) and, for periodic results, at 400 points of the argument interval*)
+(* plus both sides of the period boundaries through x = n*L + remainder; each  *)
+(* deviation is logged in permille of the allowed one, tol * max(1, |f|).      *)
+(* Clauses "err"/"perr": no measured deviation exceeds ErrLimit.  This is a    *)
+(* sampled observation, not a proof over the reals (DESIGN.md section 6).      *)
 (*                                                                             *)
 (* Doubles are abstracted per call into atoms: `a` identifies a value (equal   *)
 (* doubles <=> equal a), `r` is its rank in the sorted table of the call's     *)
@@ -19,10 +26,12 @@ EXTENDS Integers, Sequences, FiniteSets
 NI     == 2000000000       \* xv entry of a breakpoint that is not an integer value
 MaxPts == 1000000          \* declared bound on the number of breakpoints of one result
 
-Clauses == {"inc", "count", "first", "last", "factor", "shortcut"}
+Clauses == {"inc", "count", "first", "last", "factor", "shortcut", "err", "perr"}
+\* measured deviation, permille (floor) of the allowed deviation: 1000 = anything below 1.001 x allowed
+ErrLimit == 1000
 
 NoAtom == [a |-> -1, r |-> -1]
-NoFac  == [Lpos |-> TRUE, integral |-> TRUE, nlo |-> 0, nhi |-> 0, fLo |-> 0, cHi |-> 0]
+NoFac  == [Lpos |-> TRUE, integral |-> TRUE, nlo |-> 0, nhi |-> 0, fLo |-> 0, cHi |-> 0, pem |-> 0]
 
 -----------------------------------------------------------------------------
 (* 1. The clauses on a complete abstract result R:                             *)
@@ -35,6 +44,9 @@ NoFac  == [Lpos |-> TRUE, integral |-> TRUE, nlo |-> 0, nhi |-> 0, fLo |-> 0, cH
 (*    xa, xr     : atoms / ranks of the breakpoints                            *)
 (*    xv, yx     : integer value (or NI) and exactness per breakpoint          *)
 (*                 (present iff isInt /\ ~per)                                 *)
+(*    em         : per breakpoint, worst measured deviation at it and inside   *)
+(*                 the segment ending there; fac.pem: worst deviation measured *)
+(*                 on the argument interval through the period reduction       *)
 NPts(R) == Len(R.xr)
 WantInt(R) == R.isInt /\ ~R.per
 
@@ -70,12 +82,17 @@ OnePerInteger(R) == /\ WantInt(R)
 ShortcutOK(R) == OnePerInteger(R) =>
                    \A i \in 1..NPts(R) : R.xv[i] = R.clv + i - 1 /\ R.yx[i]
 
+ErrOK(R)  == \A i \in 1..NPts(R) : R.em[i] <= ErrLimit
+PErrOK(R) == R.per => R.fac.pem <= ErrLimit
+
 Holds(c, R) == CASE c = "inc"      -> Increasing(R)
                  [] c = "count"    -> CountOK(R)
                  [] c = "first"    -> FirstOK(R)
                  [] c = "last"     -> LastOK(R)
                  [] c = "factor"   -> FactorOK(R)
                  [] c = "shortcut" -> ShortcutOK(R)
+                 [] c = "err"      -> ErrOK(R)
+                 [] c = "perr"     -> PErrOK(R)
 Violated(R) == {c \in Clauses : ~Holds(c, R)}
 
 -----------------------------------------------------------------------------
@@ -90,7 +107,7 @@ Blank == [pc |-> "idle", id |-> -1, isInt |-> FALSE, per |-> FALSE,
           lo |-> NoAtom, hi |-> NoAtom, cl |-> NoAtom, fl |-> NoAtom, clv |-> 0, flv |-> 0,
           remLo |-> NoAtom, remHi |-> NoAtom, fac |-> NoFac,
           n |-> 0, firstA |-> -1, lastA |-> -1, lastR |-> -1,
-          incOK |-> TRUE, allInt |-> TRUE, consec |-> TRUE, exact |-> TRUE]
+          incOK |-> TRUE, allInt |-> TRUE, consec |-> TRUE, exact |-> TRUE, errOK |-> TRUE]
 
 Resting(s)   == s.pc \in {"idle", "done", "refused", "dead"}
 CanClip(s)   == s.pc = "init"
@@ -108,7 +125,7 @@ Period(s, remLo, remHi, fac) ==
   [s EXCEPT !.pc = "periodic", !.per = TRUE, !.remLo = remLo, !.remHi = remHi, !.fac = fac]
 
 \* a chunk of breakpoints: xa, xr always; xv, yx (same length) iff integer & non-periodic
-Pts(s, xa, xr, xv, yx) ==
+Pts(s, xa, xr, xv, yx, em) ==
   LET k == Len(xr)
       w == s.isInt /\ ~s.per
   IN [s EXCEPT
@@ -123,7 +140,8 @@ Pts(s, xa, xr, xv, yx) ==
                    /\ \A i \in 1..k - 1 : xr[i] < xr[i + 1],
         !.allInt = s.allInt /\ (w => \A i \in 1..k : xv[i] # NI),
         !.consec = s.consec /\ (w => \A i \in 1..k : xv[i] = s.clv + s.n + i - 1),
-        !.exact  = s.exact /\ (w => \A i \in 1..k : yx[i])]
+        !.exact  = s.exact /\ (w => \A i \in 1..k : yx[i]),
+        !.errOK  = s.errOK /\ Len(em) = k /\ \A i \in 1..k : em[i] <= ErrLimit]
 
 Finish(s) == [s EXCEPT !.pc = "done"]
 Refuse(s) == [s EXCEPT !.pc = "refused"]
@@ -150,6 +168,8 @@ SHolds(c, s) ==
                                   /\ s.fac.nhi >= s.fac.cHi - 1
     [] c = "shortcut" -> (s.isInt /\ ~s.per /\ s.n = s.flv - s.clv + 1 /\ s.allInt)
                             => (s.consec /\ s.exact)
+    [] c = "err"      -> s.errOK
+    [] c = "perr"     -> s.per => s.fac.pem <= ErrLimit
 SViolated(s) == {c \in Clauses : ~SHolds(c, s)}
 
 \* the machine run on a complete result R, its points split after position k
@@ -160,8 +180,8 @@ RunOn(R, k) ==
       sub(q, a, b) == IF a > b THEN <<>> ELSE SubSeq(q, a, b)
       n  == NPts(R)
       s2 == Pts(s1, sub(R.xa, 1, k), sub(R.xr, 1, k),
-                IF w THEN sub(R.xv, 1, k) ELSE <<>>, IF w THEN sub(R.yx, 1, k) ELSE <<>>)
+                IF w THEN sub(R.xv, 1, k) ELSE <<>>, IF w THEN sub(R.yx, 1, k) ELSE <<>>, sub(R.em, 1, k))
       s3 == Pts(s2, sub(R.xa, k + 1, n), sub(R.xr, k + 1, n),
-                IF w THEN sub(R.xv, k + 1, n) ELSE <<>>, IF w THEN sub(R.yx, k + 1, n) ELSE <<>>)
+                IF w THEN sub(R.xv, k + 1, n) ELSE <<>>, IF w THEN sub(R.yx, k + 1, n) ELSE <<>>, sub(R.em, k + 1, n))
   IN Finish(s3)
 =============================================================================
